@@ -479,5 +479,7 @@ def run_c13(chk, regenerate=True):
     return _leg(chk, "C13hs13", "hs13_cookie", "^TestVerifHs13Cookie$", 1313, monitor_cookie, "cookie-exchange",
                 "every mask over the first 3 (thorough: 5) datagrams (ClientHello fragments, HelloRetryRequest, second "
                 "ClientHello) on 7 variants, client cut off for up to 70 s (server sees repeated first ClientHellos only), "
-                "intervals 10 ms / 250 ms / 1 s with and without backoff, reversed bursts, seeded random masks.",
+                "intervals 10 ms / 250 ms / 1 s with and without backoff, reversed bursts, seeded random masks; forged stale "
+                "non-ClientHello fragments (1-byte Finished / ClientKeyExchange fragment, message_seq 0) injected after the "
+                "HelloRetryRequest, 1 or 3 more than InitialRetransmitInterval/2 apart and 3 closer than that.",
                 regenerate=regenerate)
